@@ -461,6 +461,12 @@ def main():
             lines.append("VIOLATION property=%s replay=%s no-failing-input-found" % (pid, write_replay("broken", payload)))
 
     # 6. evidence
+    try:
+        sys.path.insert(0, os.path.join(ROOT, "tools"))
+        import fingerprints
+        drift = fingerprints.changed(pid, REPO)
+    except Exception:
+        drift = []
     nontriv = set()
     for c in cases:
         if c.get("nontrivial"):
@@ -489,6 +495,7 @@ def main():
             "distribution": (summary or {}).get("distribution", {}),
             "impl_panics": (summary or {}).get("panics", 0),
             "constants_from_source": {k: consts[k] for k in meta.get("consts", []) if k in consts},
+            "anchor_files_changed_since_model_reconciled": drift,
             "exhaustive": False,
         },
         "assumptions": meta.get("assumptions", []),
@@ -502,6 +509,8 @@ def main():
 
     print("%s tier=%s seed=%d: theorems %d/%d, cases %d (model-evaluated %d, disagreements %d), oracle failures %d (known %d), %.0fs" % (
         pid, tier, seed, discharged, obligations, len(cases), evaluated, len(mismatches), len(oracle_fail), len(oracle_fail) - len(new_fail), time.time() - t0))
+    if drift:
+        print("INFO anchored source files differ from the recorded fingerprints (model to be re-read against them; not an alarm): " + ", ".join(drift))
     for w, dtl in broken[:6]:
         print("NO-LONGER-CHECKS %s: %s" % (w, re.sub(r"\s+", " ", dtl)[:500]))
     if replay:
